@@ -174,6 +174,18 @@ def bank_c06():
                             observed=dict(received_bytes=len(got), expected_bytes=len(want), first_difference=next((i for i in range(min(len(got), len(want))) if got[i] != want[i]), min(len(got), len(want))),
                                           eof=r["eof"], tcp_closed=r["tcp"].closed, handshake_error=r["handshake_error"]),
                             clause="the client receives the header followed by exactly the body bytes, then end of stream (PyOpenSSL back end)")
+    # text bodies are UTF-8 on the wire whatever META announces
+    for meta in ("text/plain; charset=iso-8859-1", "text/gemini; charset=utf-16", "text/plain; charset=x-klingon", "text/plain; charset=us-ascii", "text/gemini; lang=fr", "text/plain;charset=UTF-8"):
+        body = "h\u00e9llo \u20ac w\u00f6rld \u4e16\u754c\n" * 3
+
+        def handler2(req, _m=meta, _b=body):
+            return GeminiResponse(status=20, meta=_m, body=_b)
+        r = asyncio.run(exchange(handler2))
+        want = b"20 " + meta.encode() + b"\r\n" + body.encode("utf-8")
+        if r["plaintext"] != want:
+            got = r["plaintext"]
+            return dict(confirmed=True, input=dict(meta=meta, body="non-ASCII text (str)"), observed=dict(received=repr(got[:60]), received_bytes=len(got), expected_bytes=len(want)),
+                        clause="a text body arrives as exactly its UTF-8 bytes whatever META says")
     return dict(confirmed=False, reason="all bodies arrived complete and unaltered", sizes=sizes)
 
 
